@@ -925,11 +925,11 @@ class EnumConverter(Converter[enum.Enum]):
     def collect_errors(self, val: t.Any) -> t.Optional[ErrorNode]:
         """See [`Converter.collect_errors`][pane.converters.Converter.collect_errors]"""
         try:
-            val = self.inner_conv.try_convert(val)
+            conv_val = self.inner_conv.try_convert(val)
         except ParseInterrupt:
             return self.inner_conv.collect_errors(val)
         try:
-            self.val_map[val]
+            self.val_map[conv_val]
             return None
         except KeyError:
             return WrongTypeError(self.expected(), val)
